@@ -14,6 +14,33 @@ TRUST = ("Trusted: Coq 8.16.1 kernel (vm_compute only where a theorem's name say
          "(int(), bin/oct/hex, str methods, Decimal.quantize, datetime), openpyxl, networkx, numpy.")
 
 CLAIMED = {
+    'C11': dict(
+        technique="Coq proof over a hand-written executable model of the address algebra (coq/Model/Addr.v), "
+                  "extracted-model/implementation differential run, and the property's oracle on the implementation",
+        text="Machine-checked proofs (Coq 8.16, 21 theorems in coq/Props/C11.v, all closed under the global "
+             "context) over Model/Addr.v, a hand-written model of AddressCell/AddressRange, split_sheetname, "
+             "unquote_sheetname, range_boundaries/r1c1_boundaries and openpyxl's get_column_letter/"
+             "column_index_from_string/range_boundaries/quote_sheetname. FULL (all inputs, induction/lia): "
+             "C11_letters, C11_letters_inverse (bijective base 26, every n >= 1 / every non-empty [A-Z] string); "
+             "C11_roundtrip_plain/_quoted/_abs (parse(print a) = a for every cell and every range with distinct "
+             "corners in 1..16384 x 1..1048576 and every sheet name with sheet_ok = no '!' and not both starting "
+             "and ending with an apostrophe; for the quoted/absolute forms names containing a space only need no "
+             "'!'); C11_notations, C11_notation_relative (A1 = R1C1 = tuple; R[dr]C[dc] from any anchor and any "
+             "integer offsets = address_at_offset with wrap); C11_enumerate, C11_contains (height*width distinct "
+             "cells, membership <-> containment, for ranges that do not span the full sheet width/height, which "
+             "the implementation refuses to enumerate); C11_intersection (= common cells, #NULL! iff none), "
+             "C11_union (least rectangle containing both), C11_inter_comm/C11_union_comm (all addresses), "
+             "C11_inter_idem/C11_union_idem, C11_union_assoc, C11_different_sheets (#VALUE!), "
+             "C11_offset_in_sheet/_compose/_wrap. PARTIAL: C11_inter_assoc_partial (associativity of & only when "
+             "both inner intersections are non-empty); the full statement is refuted in the model "
+             "(coq/Refuted/C11_assoc.v: (A1:B2 & C3:D4) & A1:A2 raises AttributeError instead of #NULL!). "
+             "Unbounded ranges (A:B, 1:2) and reversed corners are modelled and covered by the correspondence "
+             "but not by the lattice theorems. The model is tied to the implementation by running the extracted "
+             "model against the real API on ~55k calls per quick run (printed address text, (sheet, col, row) "
+             "tuples, error texts, exception classes compared exactly), and the property is evaluated directly "
+             "on the implementation (~25k oracle cases) to produce concrete failing inputs.",
+        design_ref="DESIGN.md 5 C11",
+    ),
     'C18': dict(
         technique="Coq proof over a model regenerated from engineering.py by a Python-AST translator, plus "
                   "extracted-model/implementation differential run",
